@@ -703,6 +703,51 @@ Qed.
 End Loops.
 
 (* ------------------------------------------------------------------------------------------------ *)
+(** * The specification survives the guess and the continuation
+
+    [accept p r] may (and for the tie does) include "r is AT the specified point p": same temperature, same pressure,
+    same feed / specified composition.  A guess is only a start state, so every state of every diagram is at its own
+    point — not at the point its guess came from. *)
+
+Section SpecPreserved.
+Variables P G R : Type.
+Variable accept : P -> R -> bool.
+Variable solve : P -> option G -> option R.
+Variable ng : R -> G.
+Variable reset : option G.
+
+Theorem diagram_accepted :
+  (forall p g r, solve p g = Some r -> accept p r = true) ->
+  forall ps p r, In (p, r) (presults (run solve ng reset ps)) -> accept p r = true.
+Proof.
+  intros HA ps p r Hin. unfold presults in Hin. apply in_fmap_opt in Hin.
+  destruct Hin as [e [Hin He]]. destruct (e_res e) as [r'|] eqn:E; [|discriminate].
+  injection He as Hp Hr. subst p r'.
+  apply cont_consistent in Hin. rewrite E in Hin. symmetry in Hin. eapply HA; eauto.
+Qed.
+End SpecPreserved.
+
+(** instance: a flash continuation over filtered attempts — every state passed the test AT ITS OWN point *)
+Theorem lle_diagram_accepted : forall (P G R : Type) (accept : P -> R -> bool)
+    (raw_g : P -> G -> attempt R) (raw_0 : P -> stage -> attempt R) (ng : R -> G) ps p r,
+  In (p, r) (presults (run (tp_flash (fatt_g accept raw_g) (fatt_0 accept raw_0)) ng None ps)) -> accept p r = true.
+Proof.
+  intros P G R accept raw_g raw_0 ng. apply diagram_accepted.
+  intros p g r H. exact (proj1 (proj2 (accepted_only accept raw_g raw_0 p g r)) H).
+Qed.
+
+(** a start state that keeps the guess's point is refuted: (toy) the guessed attempt returns a result at the guess's
+    point, which the acceptance test AT the requested point rejects *)
+Theorem guess_point_leak_refuted :
+  exists (accept : nat -> nat -> bool) (raw_g : nat -> nat -> attempt nat) (raw_0 : nat -> stage -> attempt nat) p g,
+    raw_g p g = AOk g /\ accept p g = false /\
+    tp_flash (fatt_g accept raw_g) (fatt_0 accept raw_0) p (Some g) = Some p.
+Proof.
+  exists Nat.eqb, (fun _ g => AOk g), (fun p s => match s with SStab1 => AOk p | _ => AAbsent end), 5, 3.
+  repeat split.
+Qed.
+
+(* ------------------------------------------------------------------------------------------------ *)
 (** * Assembly of binary diagrams (phase_diagram_binary.rs:27-116, 189-231) *)
 
 Section Assembly.
